@@ -81,7 +81,22 @@ class AbsEval:
         if isinstance(e, ast.Dict):
             return Kind('dict', empty=not e.keys, truthy=bool(e.keys))
         if isinstance(e, ast.JoinedStr):
-            return Kind('str')
+            # an f-string of literals folds to a literal (plain {x} / {x!s} fields only)
+            parts = []
+            for v in e.values:
+                if isinstance(v, ast.Constant):
+                    parts.append(str(v.value))
+                elif isinstance(v, ast.FormattedValue) and v.format_spec is None and \
+                        v.conversion in (-1, 115):
+                    c = self.eval(v.value, _depth + 1)
+                    if isinstance(c, Const) and isinstance(c.v, (str, int)) and \
+                            not isinstance(c.v, bool):
+                        parts.append(str(c.v))
+                    else:
+                        return Kind('str')
+                else:
+                    return Kind('str')
+            return Const(''.join(parts))
         if isinstance(e, (ast.Name, ast.Attribute)):
             c = self.const_expr(e)
             if c is not None:
@@ -134,6 +149,9 @@ class AbsEval:
                     if isinstance(e.op, ast.Mult) and isinstance(a.v, (int, float)) \
                             and isinstance(b.v, (int, float)):
                         return Const(a.v * b.v)
+                    if isinstance(e.op, ast.Mod) and isinstance(a.v, str) and \
+                            isinstance(b.v, (str, int, tuple)) and not isinstance(b.v, bool):
+                        return Const(a.v % b.v)     # '%s' formatting of literals
                 except Exception:
                     return None
             if isinstance(e.op, ast.Add):
